@@ -236,7 +236,12 @@ def _vector_field(ctx, mesh, ndim, labels, perm, array, keyorder="vdims", **kw):
     else:
         vd = list(CUSTOM[:ndim])
     vm = {vd[i]: dims[perm[i]] for i in range(ndim)}
-    given = vm if keyorder == "vdims" else dict(reversed(list(vm.items())))
+    if keyorder == "vdims":
+        given = vm
+    elif keyorder == "reversed":
+        given = dict(reversed(list(vm.items())))
+    else:  # "axis-order": keys listed in the order of the axes they point to (values read dims in order)
+        given = dict(sorted(vm.items(), key=lambda kv: list(dims).index(kv[1])))
     return df.Field(mesh, nvdim=ndim, value=array, vdims=vd, vdim_mapping=given, **kw), vd, vm
 
 
@@ -511,7 +516,7 @@ def unit_combination(ctx):
     ncell = int(np.prod(n))
     probe = ctx.choose("probe", ["tracer"] + [(i, c) for i in range(ncell) for c in range(nv)])
     # the same mapping written with its keys in another order (tracer probe only: pairing is decided once per field)
-    keyorder = ctx.choose("mapping-key-order", ["vdims", "reversed"]) if vector and ndim > 1 and probe == "tracer" else "vdims"
+    keyorder = ctx.choose("mapping-key-order", ["vdims", "reversed", "axis-order"]) if vector and ndim > 1 and probe == "tracer" else "vdims"
     if probe == "tracer":
         vals = C.tracer(n, nv, ctx.seed)
     else:
